@@ -97,6 +97,7 @@ class Pile(Widget, WidgetContainerMixin, WidgetContainerListContentsMixin):
             return frozenset((Sizing.BOX, Sizing.FLOW))
         strict_box = False
         has_flow = False
+        weight_without_box = False
 
         has_fixed = False
         supported: set[Sizing] = set()
@@ -115,6 +116,8 @@ class Pile(Widget, WidgetContainerMixin, WidgetContainerListContentsMixin):
                 flag |= _ContainerElementSizingFlag.WH_WEIGHT
                 if Sizing.BOX in w_sizing:
                     flag |= _ContainerElementSizingFlag.BOX
+                else:
+                    weight_without_box = True
                 if Sizing.FLOW in w_sizing:
                     flag |= _ContainerElementSizingFlag.FLOW
                 if Sizing.FIXED in w_sizing and w_sizing & {Sizing.BOX, Sizing.FLOW}:
@@ -157,6 +160,9 @@ class Pile(Widget, WidgetContainerMixin, WidgetContainerListContentsMixin):
                 supported.add(Sizing.FLOW)
             if has_fixed:
                 supported.add(Sizing.FIXED)
+            if weight_without_box:
+                # a box Pile renders every WEIGHT item as a box widget
+                supported.discard(Sizing.BOX)
 
         return frozenset(supported)
 
